@@ -6,6 +6,7 @@ import (
 	"fmt"
 	"hash/fnv"
 	"os"
+	"runtime/debug"
 	"sort"
 	"strconv"
 	"strings"
@@ -148,6 +149,7 @@ func (w *W) close() {
 // workerMain: vcheck worker <prop> <tier> <seed> <indexfile> <outfile> <journal>
 func workerMain(args []string) {
 	prop, tier := args[0], args[1]
+	debug.SetMaxStack(128 << 20) // a runaway recursion dies in a second instead of after 1 GB
 	seed, _ := strconv.ParseUint(args[2], 10, 64)
 	idxData, err := os.ReadFile(args[3])
 	if err != nil {
